@@ -87,7 +87,9 @@ ArgList arglist_create(hostlist_t hl)
     while ((node = hostlist_next(itr)) != NULL) {
         Arg *arg = _create_arg(node);
 
-        hash_insert(new->args, arg->node, arg);
+        /* a node named twice in the list keeps its first entry */
+        if (!hash_insert(new->args, arg->node, arg))
+            _destroy_arg(arg);
         free(node); /* hostlist_next strdups returned string */
     }
     hostlist_iterator_destroy(itr);
